@@ -238,6 +238,19 @@ fn check_roundtrip(rep: &Report, local: &mut Local, c: &FullCfg) {
         if v2 != want {
             return Err(("verify_vs_documented_range".into(), format!("parsed configuration verifies {v2}, documented ranges say {want}")));
         }
+        // the verified wrapper is serialisable too: what it writes must parse back to the same configuration
+        if let Ok(ver) = value.clone().into_verified() {
+            let vtext = toml::to_string(&ver).map_err(|e| ("serialise_error|verified".to_string(), format!("toml::to_string of the verified configuration failed: {e}")))?;
+            let vback: config::Encoder = toml::from_str(&vtext).map_err(|e| ("parse_back_error|verified".to_string(), format!("the document serialised from the verified configuration does not parse: {e}\n{vtext}")))?;
+            if render(&vback) != render(&value) {
+                return Err(("roundtrip_differs|verified".into(), format!("the document serialised from the verified configuration parses to a different configuration:\n  in : {}\n  out: {}\n{vtext}", render(&value), render(&vback))));
+            }
+        }
+        // a document parsed directly as a verified configuration must not get round verification (whether
+        // such a document parses at all is not demanded)
+        if let (Ok(_), false) = (toml::from_str::<flacenc::error::Verified<config::Encoder>>(&text), v1) {
+            return Err(("parsed_as_verified_without_verification".into(), format!("a document whose configuration verification rejects ({}) parses as Verified<Encoder>", out_of_range(c, cfg!(feature = "experimental")).join(", "))));
+        }
         Ok(())
     });
     match r {
@@ -409,7 +422,7 @@ pub fn run(args: &Args, rep: &Arc<Report>) {
     rep.extra("roundtrip_configs", json!(n));
     rep.extra("omission_documents", json!(wn));
     rep.set_rule(&format!(
-        "(a) toml::from_str(toml::to_string(c)) renders equal to c, and verify() agrees before/after and with the documented ranges, for every single- and two-field deviation of the C07 configuration set that TOML can carry ({n} values); (b) documents written by the harness from two all-non-default values with {} of the 2^19 subsets of the 19 leaf keys omitted (plus whole-section omissions, with and without the emptied section headers): parsed value == value with exactly the omitted leaves replaced by the documented defaults; (c) type=\"ApproxEnt\" without partitions -> 16, type=\"Tukey\" without alpha -> 0.4; non-trivial = a round trip or a document with at least one omitted leaf that agreed",
+        "(a) toml::from_str(toml::to_string(c)) renders equal to c, verify() agrees before/after and with the documented ranges, the document written from the Verified wrapper parses to the same value, and a document that verification rejects never parses as Verified<Encoder>, for every single- and two-field deviation of the C07 configuration set that TOML can carry ({n} values); (b) documents written by the harness from two all-non-default values with {} of the 2^19 subsets of the 19 leaf keys omitted (plus whole-section omissions, with and without the emptied section headers): parsed value == value with exactly the omitted leaves replaced by the documented defaults; (c) type=\"ApproxEnt\" without partitions -> 16, type=\"Tukey\" without alpha -> 0.4; non-trivial = a round trip or a document with at least one omitted leaf that agreed",
         if thorough { "ALL".to_string() } else { "every subset of size <= 4 or of co-size <= 3".to_string() }
     ));
 }
